@@ -253,8 +253,8 @@ func init() {
 								c.Fail("", "Resample with N <= 0 did not return nothing", map[string]interface{}{"case": cs, "output": sv(out)})
 							}
 						case len(in) < 2:
-							if !bitsEqualPts(out, in) {
-								c.Fail("", "a line with fewer than two vertices is not returned as it is", map[string]interface{}{"case": cs, "output": sv(out)})
+							if !bitsEqualPts(out, in) || (out == nil) != (in == nil) {
+								c.Fail("", "a line with fewer than two vertices is not returned as it is", map[string]interface{}{"case": cs, "output": sv(out), "input_is_nil": in == nil, "output_is_nil": out == nil})
 							}
 						case allSame(in):
 							if len(out) != n || !allSame(out) || out[0] != in[0] {
@@ -309,8 +309,8 @@ func init() {
 							c.Fail("", "ToInterval with d <= 0 did not return nothing", map[string]interface{}{"case": cs, "output": sv(out)})
 						}
 					case len(in) < 2:
-						if !bitsEqualPts(out, in) {
-							c.Fail("", "a line with fewer than two vertices is not returned as it is (ToInterval)", map[string]interface{}{"case": cs, "output": sv(out)})
+						if !bitsEqualPts(out, in) || (out == nil) != (in == nil) {
+							c.Fail("", "a line with fewer than two vertices is not returned as it is (ToInterval)", map[string]interface{}{"case": cs, "output": sv(out), "input_is_nil": in == nil, "output_is_nil": out == nil})
 						}
 					default:
 						want := int(math.Floor(total/d)) + 1
